@@ -17,7 +17,8 @@ RULE = ("post-conditions on the real LogarithmicUnit.level and Level.quantify wi
         "reference, quantity unit, magnitude bucket); non-trivial = level != 0"
         " Plus a user unit recalibrated between readings and single Level objects quantified twice (first under a coarse decimal precision, then after an in-place adjustment)."
         " Half of the coarse-first readings use a reference nobody has used before, so the coarse reading is the first thing that ever happens to that logarithmic unit."
-        " References include field strength and charge densities; a root-power dimension is registered at run time; round trips are also closed with the library's own conversion.")
+        " References include field strength and charge densities; a root-power dimension is registered at run time; round trips are also closed with the library's own conversion."
+        " Readings 1e-12..1e-7 above and below every reference, in the reference's unit: definition, strictly increasing chain across the reference, round trip.")
 ASSUMPTIONS = [
     "k = 2 for references whose dimension is a potential, current, pressure, speed, field strength or a charge density per length / area / volume (root-power), 1 for power, energy, "
     "intensity and frequency references - taken from the physics, not from ROOT_POWER_DIMENSIONS",
